@@ -408,6 +408,61 @@ def _comp_xor_zip(rs: Term, res: Term, last: List[Term], ex, st) -> bool:
     return True
 
 
+def aes_index_safety(prog):
+    """concrete-control interpretation of the AES block functions: every subscript is resolved concretely (no 'subscript'
+    event with a symbolic or failing index is emitted inside AES.__init__ / encrypt / decrypt).  -> (safe, lookups)"""
+    cls = prog.cls(AESQ + ".AES")
+    lookups = 0
+    safe = True
+    for meth, keyattr in (("encrypt", "_Ke"), ("decrypt", "_Kd")):
+        fi = prog.method(AESQ + ".AES", meth)
+        for nr in (10, 12, 14):
+            ex = Exec(prog, policy=pol)
+
+            def setup(st, _nr=nr, _ex=ex, _keyattr=keyattr):
+                selfo = _ex.new_obj(st, "obj", cls=cls, label="aes")
+                ke, syms = _mk_words(_ex, st, _nr + 1, "k")
+                _ex.obj(st, selfo).attrs[_keyattr] = ke
+                return {fi.params[0]: selfo, fi.params[1]: _ex.new_list(st, [sym("p%d_" % i) for i in range(16)])}
+
+            try:
+                res = ex.run(fi, setup=setup)
+            except Unsupported:
+                return False, lookups
+            for e in res.events:
+                if e.kind == "subscript":
+                    lookups += 1
+                    b = unsnap(e.d["base"])
+                    # table lookups with a symbolic byte index into a 256-entry table are in range by construction (& 0xFF)
+                    if b.op == "static" and len(ex.statics.get(b.args[0], [])) == 256 and _masked_byte(unsnap(e.d["index"])):
+                        continue
+                    safe = False
+    fi = prog.method(AESQ + ".AES", "__init__")
+    for klen in (16, 24, 32):
+        ex = Exec(prog, policy=pol)
+
+        def setup2(st, _klen=klen, _ex=ex):
+            selfo = _ex.new_obj(st, "obj", cls=cls, label="aes")
+            return {fi.params[0]: selfo, fi.params[1]: _ex.new_list(st, [sym("key%d_" % i) for i in range(_klen)])}
+
+        try:
+            res = ex.run(fi, setup=setup2)
+        except Unsupported:
+            return False, lookups
+        for e in res.events:
+            if e.kind == "subscript":
+                lookups += 1
+                b = unsnap(e.d["base"])
+                if b.op == "static" and len(ex.statics.get(b.args[0], [])) == 256 and _masked_byte(unsnap(e.d["index"])):
+                    continue
+                safe = False
+    return safe, lookups
+
+
+def _masked_byte(t: Term) -> bool:
+    return t.op == "bin" and t.args[0] == "BitAnd" and any(is_const(x) and cval(x) == 0xFF for x in (t.args[1], t.args[2]))
+
+
 def run(prog, chk, tier):
     chk.explanation = ("All 14 lookup tables and rcon are re-generated from the GF(2^8) definitions and compared entry by entry (3614 entries). AES.encrypt, AES.decrypt "
                        "and the key schedule are interpreted by the structural abstract interpreter with concrete control and symbolic bytes; the resulting terms are evaluated "
